@@ -63,6 +63,8 @@ func (l vfSlowLogger) Tracef(format string, _ ...any) {
 	}
 }
 
+func (l vfSlowLogger) Debugf(format string, a ...any) { l.Tracef(format, a...) }
+
 type vfSlowLoggerFactory struct{ l vfSlowLogger }
 
 func (f vfSlowLoggerFactory) NewLogger(string) logging.LeveledLogger { return f.l }
@@ -1078,6 +1080,7 @@ func (w *vfWorld) project(i int) map[string]any {
 	m["cwnd"], m["ssthresh"], m["rwnd"] = int(a.cwnd), int(a.ssthresh), int(a.rwnd)
 	m["pba"] = int(a.partialBytesAcked)
 	m["infr"] = a.inFastRecovery
+	m["frexit"] = vfRel(a.fastRecoverExitPoint, txb)
 	m["inflb"] = a.inflightQueue.getNumBytes()
 	m["infln"] = a.inflightQueue.size()
 	m["pendb"] = a.pendingQueue.getNumBytes()
